@@ -66,3 +66,27 @@ Proof.
   destruct (N.leb_spec (lenN p) (lenN p + lenN rest)); [|lia].
   rewrite takeN_app_exact, dropN_app_exact. reflexivity.
 Qed.
+
+Lemma run_on A s (p : P A) i :
+  run (On s p) i = match run p s with
+                   | Ok _ a => Ok i a
+                   | Err s k => Err s k | Fail s k => Fail s k
+                   | Incomplete n => Incomplete n | Panic => Panic | OutOfFuel => OutOfFuel
+                   end.
+Proof. reflexivity. Qed.
+Lemma run_geti i : run GetI i = Ok i i.
+Proof. reflexivity. Qed.
+Lemma run_cmpl A (p : P A) i : run (Cmpl p) i = match run p i with Incomplete _ => Err i KComplete | r => r end.
+Proof. reflexivity. Qed.
+Lemma run_opt A (p : P A) i :
+  run (Opt p) i = match run p i with
+                  | Ok r a => Ok r (Some a)
+                  | Err _ _ => Ok i None
+                  | Fail s k => Fail s k
+                  | Incomplete n => Incomplete n | Panic => Panic | OutOfFuel => OutOfFuel
+                  end.
+Proof. reflexivity. Qed.
+Lemma run_peek A (p : P A) i : run (Peek p) i = match run p i with Ok _ a => Ok i a | r => r end.
+Proof. reflexivity. Qed.
+Lemma run_alt A (p q : P A) i : run (Alt p q) i = match run p i with Err _ _ => run q i | r => r end.
+Proof. reflexivity. Qed.
